@@ -37,6 +37,8 @@ DRIVERS = {"kc": {"kind": "gotest", "pkg": "sdk/go/keepclient", "test": "TestVer
 ALNUM = "abcdefghijklmnopqrstuvwxyz0123456789"
 TRANSIENT_CODES = [408, 429, 500, 502]
 REFUSE_CODES = [400, 403, 503]
+# connection errors as net/http reports them: opaque, refused, reset, timeout, unexpected EOF, no route
+EKINDS = ["e", "er", "es", "et", "eo", "eh"]
 ODD_CODES = [201, 204, 301, 404, 422, 499, 501, 504, 599, 600]
 
 
@@ -66,7 +68,9 @@ TOK_RE = re.compile(r"^(\d+)(?:H([0-9a-f]*))?(?:B([0-9a-f]*))?(X)?$")
 
 def parse_tok(t):
     """-> ('e',) | ('k',) | ('f', code, hdr|None, body bytes, bodyerr)"""
-    if t in ("e", "k"):
+    if t in EKINDS:
+        return ("e",)
+    if t == "k":
         return (t,)
     m = TOK_RE.match(t)
     if not m:
@@ -135,7 +139,7 @@ def _rand_out(rng, h, size, tag, odd, p_ok):
         return _ok_tok(rng, h, size, tag, odd)
     r = rng.random()
     if r < 0.25:
-        return "e"
+        return rng.choice(EKINDS)
     if r < 0.55:
         return tok(rng.choice(TRANSIENT_CODES), None, b"" if rng.random() < 0.5 else b"try later\n")
     if r < 0.9:
@@ -239,6 +243,14 @@ def gen_seq(rng):
     parts = [first[4:]]
     for _ in range(rng.choice([1, 1, 2])):
         svcs = [dict(s, outs=[]) for s in c["svcs"]]
+        if rng.random() < 0.4:
+            # the service list changed meanwhile: same uuids, other read-only flags / types
+            for sv in svcs:
+                if rng.random() < 0.35:
+                    sv["writable"] = not sv["writable"]
+                if rng.random() < 0.2:
+                    sv["disk"] = not sv["disk"]
+        c = dict(c, svcs=svcs)
         want = rng.choice([1, 2, 2, 3])
         retries = rng.choice([0, 1, 2])
         data = bytes(rng.getrandbits(8) for _ in range(rng.choice([0, 1, 3, 17])))
@@ -292,6 +304,9 @@ def gen_exhaustive(rng, max_svcs, max_retries, sample=1.0):
                                     o = tok(200, None if (i + k) % 2 else "1", f"{h}+3+A{i}{k}".encode() + b"\n")
                                 elif o == "OK2":
                                     o = tok(200, "2", f"{h}+3+A{i}{k}".encode())
+                                elif o == "e":
+                                    o = EKINDS[(i + 2 * k + len(combo[0])) % len(EKINDS)] if want == 2 else \
+                                        ("er" if kind == "d" else "e")
                                 outs.append(o)
                             svcs.append({"uuid": uu[i], "disk": kind == "d", "writable": True, "outs": outs})
                         pick_sets = [[0] * 12] if kind == "p" else \
@@ -304,7 +319,7 @@ def gen_exhaustive(rng, max_svcs, max_retries, sample=1.0):
 def gen_upl(rng):
     r = rng.random()
     if r < 0.05:
-        return "upl e"
+        return "upl " + rng.choice(EKINDS)
     code = rng.choice([200, 200, 200, 200, 400, 403, 408, 429, 500, 502, 503] + ODD_CODES)
     q = rng.random()
     if q < 0.3:
@@ -350,6 +365,31 @@ def gen_load(rng):
     return f"load {rng.choice('001')} {';'.join(items) or '-'}"
 
 
+def gen_reload(rng):
+    """ONE client is given 2-3 service lists in a row: flags, types, addresses change, services come
+    and go, or nothing changes"""
+    items = [x.split(",") for x in gen_load(rng).split(" ", 2)[2].split(";")] if rng.random() < 0.9 else []
+    items = [x for x in items if len(x) == 6]
+    lists = [items]
+    for _ in range(rng.choice([1, 1, 2])):
+        cur = [list(x) for x in lists[-1]]
+        r = rng.random()
+        for it in cur:
+            if r < 0.6 and rng.random() < 0.5:
+                it[5] = "1" if it[5] == "0" else "0"
+            if r < 0.6 and rng.random() < 0.3:
+                it[4] = rng.choice(["disk", "proxy"])
+            if 0.6 <= r < 0.75 and rng.random() < 0.5:
+                it[1], it[2] = "k%d.example" % rng.randrange(4), str(rng.choice([25107, 443]))
+        if 0.75 <= r < 0.85 and cur:
+            cur.pop(rng.randrange(len(cur)))
+        elif 0.85 <= r < 0.93:
+            cur.append([_uuid(rng), "k%d.example" % rng.randrange(4), "25107", "0", rng.choice(["disk", "proxy"]), rng.choice("01")])
+        lists.append(cur)
+    fmt = lambda l: ";".join(",".join(x) for x in l) or "-"
+    return f"reload {rng.choice(['json', 'json', 'api'])} {len(lists)} " + " ".join(fmt(l) for l in lists)
+
+
 def gen_disc(rng):
     if rng.random() < 0.75:
         return "disc api " + gen_load(rng).split(" ", 2)[2]
@@ -367,6 +407,7 @@ def generate(rng, tier):
         cases += [gen_upl(rng) for _ in range(600)]
         cases += [gen_load(rng) for _ in range(300)]
         cases += [gen_disc(rng) for _ in range(200)]
+        cases += [gen_reload(rng) for _ in range(300)]
     else:
         cases += gen_exhaustive(rng, 3, 2, sample=0.25)
         cases += [gen_random_put(rng, i % 3300 == 7) for i in range(40000)]
@@ -374,6 +415,7 @@ def generate(rng, tier):
         cases += [gen_upl(rng) for _ in range(6000)]
         cases += [gen_load(rng) for _ in range(3000)]
         cases += [gen_disc(rng) for _ in range(1500)]
+        cases += [gen_reload(rng) for _ in range(3000)]
     return cases
 
 
@@ -540,7 +582,7 @@ def oracle_upl(case, impl):
     if len(f) != 3:
         return "uploadToKeepServer did not report a status: " + impl[:200]
     if t[0] == "e":
-        return None if f[0] == "0" else "connection error reported with an HTTP status"
+        return None if f[0] == "0" else "connection error reported with an HTTP status (" + f[0] + ")"
     _, code, hdr, body, berr = t
     if int(f[0]) != code:
         return f"status {f[0]} reported for a {code} answer"
@@ -587,6 +629,9 @@ def oracle(case, impl):
         return oracle_upl(case, impl)
     if case.startswith("load "):
         return oracle_load(case, impl)
+    if case.startswith("reload "):
+        # the property looks at what the client holds now: judged against the LAST list it was given
+        return oracle_load("load 0 " + case.split(" ")[-1], impl)
     if case.startswith("disc api "):
         return oracle_load("load 0 " + case.split(" ", 2)[2], impl)
     if case.startswith("disc uris "):
@@ -631,6 +676,8 @@ def describe(cases, impl):
             d["puts_with_concurrent_uploads_possible"] += 1
         for s in p["svcs"]:
             for o in s["outs"]:
+                if o in EKINDS:
+                    inc(d.setdefault("conn_error_kinds", {}), o)
                 t = parse_tok(o)
                 inc(d["answers"], t[0] if t[0] != "f" else str(t[1]))
         url_hash, sent, _, _ = _sent(p)
@@ -654,6 +701,8 @@ def neighbours(case, rng):
         return [gen_seq(rng) for _ in range(10)]
     if case.startswith("disc "):
         return [gen_disc(rng) for _ in range(5)]
+    if case.startswith("reload "):
+        return [gen_reload(rng) for _ in range(8)]
     if not case.startswith("put "):
         return [gen_upl(rng) if case.startswith("upl") else gen_load(rng) for _ in range(5)]
     c = parse_put(case)
